@@ -24,9 +24,12 @@ For every request it hands to the application, the server side of aiocoap wires 
 (`on_event`, `on_interest_end`, `_unregister_on_event`, `_end`, `_add_event`) specialised to the
 closed set of callbacks above, each returning the new state and the observable effects.
 
-The model follows the code after the two `fix:` commits of C09: `_add_event` on an ended pipe
-logs (it used to raise `TypeError`), and `run_driving_pipe` reports a `CancelledError` nobody
-asked for as a terminal event.
+The model follows the code after the `fix:` commits of C09: `_add_event` on an ended pipe
+logs (it used to raise `TypeError`), `run_driving_pipe` reports a `CancelledError` nobody
+asked for as a terminal event (and, since round 4, every other exception outside the `Exception`
+hierarchy except KeyboardInterrupt / SystemExit / GeneratorExit), an error rendering without a
+response code is a failed rendering, and the token manager's callback refuses a message that is
+no response (round 4; see `runDriving` in `Render.lean`).
 -/
 namespace Aiocoap.Render
 
@@ -234,10 +237,16 @@ def outerStop (st : ReqState) : ReqState × List Eff :=
 
 def bare500 : Resp := { code := 160, payload := [], noResponse := none }
 
+/-- `Code.is_response()` (numbers/codes.py:82-84): classes 2 to 5 -/
+def isResponseCode (c : Nat) : Bool := 64 ≤ c && c < 192
+
 /-- the message `error_to_message.on_event` builds for an exception, and what it logs at
-WARNING or above (pipe.py:250-278).  A renderable error is only logged at INFO. -/
+WARNING or above (pipe.py:250-278).  A renderable error is only logged at INFO.  A rendering
+whose code is no response code is a failed rendering (pipe.py:262-275, since fix 89cd7f9). -/
 def excToMessage : Exc → Resp × List Eff
-  | .renderable c d => ({ code := c, payload := d, noResponse := none }, [])
+  | .renderable c d =>
+    if isResponseCode c then ({ code := c, payload := d, noResponse := none }, [])
+    else (bare500, [.log .rendererFailed])
   | .rendererRaises _ => (bare500, [.log .rendererFailed])
   | .rendererNone => (bare500, [.log .rendererFailed])
   | .other _ => (bare500, [.log .unhandled])
